@@ -433,6 +433,8 @@ pub fn gen_thread(class: &str, seed: u64, idx: u64) -> ThreadScenario {
         _ => {
             if r.chance(1, 10) && !long_patterns {
                 (r.range(2, 3), 20, 60)
+            } else if r.chance(1, 12) {
+                (r.range(5, 6), 2, 5)
             } else {
                 (r.range(2, 4), 2, 8)
             }
